@@ -3,8 +3,9 @@ names of the real functions in /repo; nothing here is executable code of the lib
 
 
 class Clause:
-    def __init__(self, label, text, props=None):
+    def __init__(self, label, text, props=None, witness=None):
         self.label, self.text, self.props = label, text, set(props or ())
+        self.witness = witness or {}     # existential variables: name -> (type, code-level expression giving the witness)
 
     def __repr__(self):
         return "Clause(%s)" % self.label
@@ -22,7 +23,7 @@ def _clauses(xs, default_props):
             props = x[2] if len(x) > 2 else default_props
             if isinstance(props, str):
                 props = props.split()
-            out.append(Clause(lab, text, props))
+            out.append(Clause(lab, text, props, x[3] if len(x) > 3 else None))
     return out
 
 
@@ -55,7 +56,8 @@ class Loop:
         self.invariants = _clauses(kw.get("invariants"), self.props)
         self.decreases = kw.get("decreases")
         self.bounded = kw.get("bounded")                # int: unroll instead of cutting (labelled bounded)
-        self.var = kw.get("var")                        # name under which the hidden iteration counter is visible
+        self.var = kw.get("var")
+        self.modifies = kw.get("modifies")              # None: the function's frame; list: pre-loop objects the loop may write                        # name under which the hidden iteration counter is visible
 
 
 class Pred:
